@@ -80,8 +80,8 @@ impl Ctx {
             .and_then(|s| s.parse().ok())
             .unwrap_or_else(|| std::thread::available_parallelism().map(|n| n.get()).unwrap_or(8).min(16));
         let budget = Duration::from_secs(budget.unwrap_or(match tier {
-            Tier::Quick => 90,
-            Tier::Thorough => 2400,
+            Tier::Quick => 300,
+            Tier::Thorough => 5400,
         }));
         install_panic_hook();
         Ctx { prop, tier, seed, replay, start: Instant::now(), budget, verif_dir, threads, extra_args: extra }
